@@ -11,10 +11,55 @@ OMAP = OBJ('OpticalMap')
 SP = OBJ('SelectedPeak')
 MSG = OBJ('AlignmentResultRowMessage')
 
+getInitialAlignment = FunctionSpec(
+    file='src/correlation/optical_map.py', qualname='OpticalMap.getInitialAlignment',
+    params=dict(self=OMAP, reference=OMAP, sequenceGenerator=OBJ('SequenceGenerator'), minPeakDistance=INT, peaksCount=INT, reverseStrand=BOOL), returns=CORR,
+    trusted=True, serves=('C11', 'C06'),
+    note="ASSUMED (FFT correlation, normalisation, scipy find_peaks): the primary correlation of a query with one reference on one strand; only its type is used")
+
+
+def _gpc_log(which):
+    def h(L):
+        e = L._e
+        a, kw = L.callargs, L.callkwargs
+        # (receiver is not in callargs: reference, generator, minPeakDistance, peaksCount[, reverseStrand])
+        L.set('ref' + which, a[0].t)
+        L.set('gen' + which, a[1].t)
+        L.set('mpd' + which, e.num(a[2]))
+        L.set('cnt' + which, e.num(a[3]))
+        extra = sorted(k for k in kw if k != 'reverseStrand')
+        L.set('plain' + which, z3.BoolVal(len(a) == 4 and not extra))
+        rs = kw.get('reverseStrand')
+        L.set('rev' + which, e.truth(L._st, rs) if rs is not None else z3.BoolVal(False))
+        L.set('res' + which, L.result.ref)
+    return h
+
+
+def _gpc_ensures(C, res):
+    if not C.proving:
+        return []
+    F_ = C.F
+    me = C.self
+    k = z3.Int('gpk')
+    same = lambda w: z3.And(F_['ref' + w] == C.referenceMap.ref, F_['gen' + w] == me.primaryGenerator.ref, F_['mpd' + w] == me.args.minPeakDistance,
+                            F_['cnt' + w] == me.args.peaksCount, F_['plain' + w])
+    return [('both_strands_are_seeded_with_the_same_reference_generator_distance_and_count_and_nothing_else', z3.And(same('1'), same('2'))),
+            ('first_the_forward_strand_then_the_reverse_strand', z3.And(z3.Not(F_.rev1), F_.rev2)),
+            ('yields_the_forward_result_then_the_reverse_result_each_only_if_it_has_peaks', z3.And(
+                res.len <= 2, forall(k, z3.Implies(rng(0, k, res.len), z3.Or(res.raw(k).t == F_.res1, res.raw(k).t == F_.res2)), [res.raw(k).t]),
+                z3.Implies(res.len == 2, z3.And(res.raw(0).t == F_.res1, res.raw(1).t == F_.res2))))]
+
+
+_r0 = lambda C: z3.Const('gpc_none', Ref)
 getPrimaryCorrelations = FunctionSpec(
     file=F, qualname='_WorkflowCoordinator.__getPrimaryCorrelations', params=dict(self=WC, referenceMap=OMAP, queryMap=OMAP),
-    yields=CORR, trusted=True, serves=('C07',),
-    note="numerical seeding (FFT correlation, scipy find_peaks): outside the verifier; only the result type is assumed")
+    yields=CORR, ensures=_gpc_ensures, serves=('C07', 'C11', 'C06'),
+    ghost={n + w: (lambda C: z3.Const('gpc_none', Ref)) if n in ('ref', 'gen', 'res') else ((lambda C: z3.IntVal(-1)) if n in ('mpd', 'cnt') else (lambda C: z3.BoolVal(False)))
+           for n in ('ref', 'gen', 'mpd', 'cnt', 'plain', 'rev', 'res') for w in ('1', '2')},
+    ghost_at={'call:getInitialAlignment#0': _gpc_log('1'), 'call:getInitialAlignment#1': _gpc_log('2')},
+    note="seeding of one query against one reference: the forward and the reverse strand are correlated with the SAME reference, generator, minPeakDistance and "
+         "peaksCount and no further argument (the strands are treated alike - what C11 needs from this glue); each result is passed on only if it has peaks, "
+         "forward first. The correlation itself (getInitialAlignment) is an assumed contract")
 
 getSecondaryCorrelation = FunctionSpec(
     file=F, qualname='_WorkflowCoordinator.__getSecondaryCorrelation', params=dict(self=WC, selectedPeak=SP, index=INT),
@@ -27,7 +72,7 @@ getAlignmentRow = FunctionSpec(
     note="Aligner.align on the refined peaks: returns (row, message)")
 
 dispatch = FunctionSpec(
-    file='src/extensions/dispatcher.py', qualname='Dispatcher.dispatch', params=dict(self=OBJ('Dispatcher'), message=OBJ('MultipleAlignmentResultRowsMessage')),
+    file='src/extensions/dispatcher.py', qualname='Dispatcher.dispatch', params=dict(self=OBJ('Dispatcher'), message=OBJ('MultipleAlignmentResultRowsMessage', 'InitialAlignmentMessage', 'CorrelationResultMessage', 'AlignmentResultRowMessage')),
     returns=NONE, trusted=True, serves=('C07',), note="extension dispatch: no effect on the result")
 
 
@@ -73,7 +118,7 @@ align = FunctionSpec(
          "exactly when no seed was selected)",
 )
 
-SPECS = [getPrimaryCorrelations, getSecondaryCorrelation, getAlignmentRow, dispatch, getBestAlignment, align]
+SPECS = [getInitialAlignment, getPrimaryCorrelations, getSecondaryCorrelation, getAlignmentRow, dispatch, getBestAlignment, align]
 
 
 # ------------------------------------------------------------------ _WorkflowCoordinator.execute (one work item per query, ordered map, filter)
